@@ -234,7 +234,11 @@ Section LTS.
   | PfSend (j : nat)              (* refresh j writes its query *)
   | PfUp (j : nat) (o : poutcome)  (* the upstream answers refresh j; the refresh runs to completion *)
   | PfExpire (q : N)
-  | PfEvict (q : N).
+  | PfEvict (q : N)
+  (* many keys at once (kind prefetchfan) *)
+  | PfFan (qs : list N)           (* one query per listed question; they arrive together and advance round-robin *)
+  | PfSendN (a n : nat)           (* refreshes a .. a+n-1 write their queries *)
+  | PfUpN (a n : nat) (o : poutcome).  (* the upstream answers refreshes a .. a+n-1; each runs to completion *)
 
   Definition p_range (a n : nat) : list nat := seq a n.
 
@@ -251,6 +255,11 @@ Section LTS.
     | PfUp j o => [PlUp j o; PlRef j; PlRef j]
     | PfExpire q => [PlExpire q]
     | PfEvict q => [PlEvict q]
+    | PfFan qs =>
+        let ids := p_range (length (p_hits s)) (length qs) in
+        map PlArrive qs ++ map PlHit ids ++ map PlHit ids ++ map PlHit ids ++ map PlHit ids
+    | PfSendN a n => map PlRef (p_range a n)
+    | PfUpN a n o => flat_map (fun j => [PlUp j o; PlRef j; PlRef j]) (p_range a n)
     end.
 
   (* a thread that is already finished (or took the short path) refuses further actions: skip those *)
